@@ -24,6 +24,7 @@ def prop(pid, **kw):
 def jobs(pid, tier):
     out = []
     for h in PROPS[pid]['harnesses']:
+        h.setdefault('opts', PROPS[pid].get('opts', {}))
         tl = h['types'][tier] if isinstance(h['types'], dict) else h['types']
         params = dict(h.get('params', {}).get(tier, {}))
         for t in tl:
@@ -70,3 +71,28 @@ prop('C02',
      bounds={'quick': 'parent: every window of a buffer with 1..3 channels and 0..3 frames (case split); start,end: all 2^128 pairs of int values (symbolic); witness channel/frame/position and written values symbolic',
              'thorough': 'same with 1..4 channels, 0..4 frames, all 13 element types'},
      outside=['more channels / frames than the bound', 'nesting deeper than 2 (deeper nesting is the same composition applied again)'])
+
+PAIRS_Q = [('int8', 'int8'), ('float64', 'float64'), ('float32', 'float64'), ('float64', 'float32'), ('int16', 'float64'),
+           ('float64', 'int16'), ('uint8', 'int64'), ('int64', 'uint8'), ('uint16', 'uint16'), ('int32', 'float32'),
+           ('uint64', 'float64'), ('float32', 'int8')]
+PAIRS_ALL = [(a, b) for a in ALL for b in ALL]
+C01_Q = {'MaxC': 3, 'MaxK': 2}
+C01_T = {'MaxC': 3, 'MaxK': 3}
+
+prop('C01', opts={'abstract_fp': True},
+     harnesses=[
+         {'name': 'C01_Write', 'types': {'quick': PAIRS_Q, 'thorough': PAIRS_ALL}, 'params': {'quick': C01_Q, 'thorough': C01_T},
+          'covers': ['written', 'untouched']},
+         {'name': 'C01_Read', 'types': {'quick': PAIRS_Q, 'thorough': PAIRS_ALL}, 'params': {'quick': C01_Q, 'thorough': C01_T},
+          'covers': ['read', 'beyond']},
+         {'name': 'C01_ReadKeepsBuffer', 'types': {'quick': PAIRS_Q[:4], 'thorough': PAIRS_Q}, 'params': {'quick': {'MaxC': 2, 'MaxK': 2}, 'thorough': C01_Q}},
+         {'name': 'C01_WriteStriped', 'types': {'quick': PAIRS_Q[:6], 'thorough': PAIRS_ALL}, 'params': {'quick': C01_Q, 'thorough': C01_T},
+          'covers': ['written', 'zero-filled', 'untouched']},
+         {'name': 'C01_ReadStriped', 'types': {'quick': PAIRS_Q[:6], 'thorough': PAIRS_ALL}, 'params': {'quick': C01_Q, 'thorough': C01_T},
+          'covers': ['read', 'beyond']},
+         {'name': 'C01_RoundTrip', 'types': {'quick': PAIRS_Q[:6], 'thorough': PAIRS_ALL}, 'params': {'quick': C01_Q, 'thorough': C01_T}},
+         {'name': 'C01_ChannelLength', 'types': [()], 'params': {'quick': {'MaxLemmaC': 4, 'MaxLemmaLen': 32}, 'thorough': {'MaxLemmaC': 8, 'MaxLemmaLen': 64}}},
+     ],
+     bounds={'quick': 'channels 1..3, capacity 0..2 frames, every window (case split), 0..C-1 extra samples (unaligned lengths, interleaved forms), caller slices of every length 0..C*K+2 / per-channel slices nil or 0..K+1 long; all sample values and witness positions symbolic; 12 element-type pairs',
+             'thorough': 'channels 1..3, capacity 0..3 frames; all 169 element-type pairs'},
+     outside=['more channels / frames than the bound', 'values not representable in both element types (excluded by the property)'])
